@@ -14,7 +14,7 @@ SOURCES = ["mls-rs/src/psk/secret.rs", "mls-rs/src/psk/resolver.rs", "mls-rs/src
 
 def run(ctx):
     return generic.standard(
-        ctx, ["MlsVerif.Props.C18"], ["c18"], "c13", "c18", SOURCES,
+        ctx, ["MlsVerif.Props.C18", "MlsVerif.Props.C18Repo"], ["c18"], "c13", "c18", SOURCES + ["mls-rs/src/group/state_repo.rs"],
         rule="each case: group of 3-5 members, 1-4 PSK proposals (external / resumption, by value / by reference, random order), per member and PSK: "
              "holds the same value / a different value / nothing; resumption epochs inside and outside each member's retention and before its join; "
              "a joiner with and without the PSKs; rows = psk-secret chain and epoch secrets recomputed by the model from the (id, nonce, value) list; "
@@ -23,7 +23,11 @@ def run(ctx):
         what_oracle="a member without (all) the PSK values reached the epoch, a holder was refused, a rejecting member changed, or holders disagree",
         assumptions=["theorems assume an injective KDF (FreePsk) — the standard random-oracle idealisation; the byte-level rows use the Lean HKDF reference",
                      "PSK nonces are taken from the commit as sent (random per proposal)"],
-        nontrivial=lambda r, kv: int(kv.get("cases", "0")))
+        nontrivial=lambda r, kv: int(kv.get("cases", "0")),
+        # which resumption PSKs resolve at all: the repository's own lookup path (`resumption_secret`), tied as `repo.psk` rows of the
+        # storage scenarios (both providers, random write / reload / crash points) to Repo.resumptionSecret; MlsVerif.Props.C18Repo
+        # proves it equal to the epoch lookup (hence the retention window of C19) and blind to the caches for another group's PSK
+        also=[(["c06", "--scenarios", "60" if ctx.tier != "thorough" else "600", "--focus", "C18"], "repo", "c06all")])
 
 
 def replay(ctx, path):
